@@ -191,7 +191,7 @@ func genEvalCase(r *rng, i int, mode string) (*evalCase, *hostEnv) {
 		v := func(n string) *RE { return &RE{Op: "var", Sym: n} }
 		asg := func(t string, e *RE) *RS { return &RS{Op: "assign", Sym: "=", Tgt: v(t), E: e} }
 		g := &egen{r: r, locals: map[string]string{}}
-		blk := &RS{Op: "conc", Items: []*RS{asg("c0", mkBin("ar", "/", lit("int64", "7"), v("p_int32"))), asg("S.I64", lit("int64", "5"))}}
+		blk := &RS{Op: "conc", Items: []*RS{asg("c0", mkBin("ar", "/", lit("int64", "7"), v("S.I32"))), asg("S.I64", lit("int64", "5"))}}
 		for k, n := 0, 1+r.intn(2); k < n; k++ {
 			g.noteN++
 			blk.Items = append(blk.Items, &RS{Op: "call", E: &RE{Op: "call", Kind: "func", Sym: "obsC", Args: []*RE{lit("int64", strconv.Itoa(g.noteN))}}})
@@ -201,9 +201,9 @@ func genEvalCase(r *rng, i int, mode string) (*evalCase, *hostEnv) {
 			blk.Items = append(blk.Items, &RS{Op: "call", E: &RE{Op: "call", Kind: "method", Sym: "S.Note", Args: []*RE{lit("int64", strconv.Itoa(g.noteN))}}})
 		}
 		bodies := []*RBlock{
-			{Stmts: []*RS{asg("p_int32", lit("int64", "0"))}},
+			{Stmts: []*RS{asg("S.I32", lit("int64", "0"))}},
 			{Stmts: []*RS{blk}, HasRet: true, Ret: v("c0")},
-			{Stmts: []*RS{asg("p_int32", lit("int64", "1"))}},
+			{Stmts: []*RS{asg("S.I32", lit("int64", "1"))}},
 		}
 		hdrs := []ruleHdr{{Name: names[perm[0]]}, {Name: names[perm[1]]}, {Name: names[perm[2]]}}
 		for k := range bodies {
@@ -364,12 +364,20 @@ func runConcProbe(c *evalCase, h *hostEnv) {
 		asg = " if true {\n  cx = tick()\n }\n"
 	}
 	p.Text = "rule \"cc\" begin\n" + asg + " sync()\n return cx\nend\n"
+	wide := c.I%3 == 0
+	if wide {
+		// every execution has evaluated the first argument (its own local) and waits inside the second
+		// one until all have: an argument list kept anywhere but in the execution itself gets mixed up
+		p.Text = "rule \"cc\" begin\n" + asg + " return pair( cx, syncv( cx ) )\nend\n"
+	}
 	dc := context.NewDataContext()
 	h.mu.Lock()
 	h.tickN, h.syncN, h.syncArr, h.syncCh = 0, p.K, 0, make(chan struct{})
 	h.mu.Unlock()
 	dc.Add("tick", h.funcValue("tick"))
 	dc.Add("sync", h.funcValue("sync"))
+	dc.Add("syncv", h.funcValue("syncv"))
+	dc.Add("pair", h.funcValue("pair"))
 	rb := builder.NewRuleBuilder(dc)
 	if err := rb.BuildRuleFromString(p.Text); err != nil {
 		p.Got = []string{"build: " + err.Error()}
@@ -399,7 +407,11 @@ func runConcProbe(c *evalCase, h *hostEnv) {
 	sortStrings(res)
 	p.Got = res
 	for i := 1; i <= p.K; i++ {
-		p.Want = append(p.Want, strconv.Itoa(i))
+		if wide {
+			p.Want = append(p.Want, strconv.Itoa(i*1000+i))
+		} else {
+			p.Want = append(p.Want, strconv.Itoa(i))
+		}
 	}
 	sortStrings(p.Want)
 }
